@@ -1,0 +1,113 @@
+//go:build verif
+
+package controller
+
+import (
+	"time"
+
+	"github.com/atlassian/escalator/pkg/cloudprovider"
+	v1 "k8s.io/api/core/v1"
+	"k8s.io/apimachinery/pkg/api/resource"
+	"k8s.io/client-go/kubernetes"
+	v1lister "k8s.io/client-go/listers/core/v1"
+)
+
+// This file is only compiled with the "verif" build tag. It adds read/write access to controller
+// memory for the external verification harness and does not change any existing code path.
+
+// VerifNewController wires a Controller from injected listers and cloud provider, building the real
+// filtered node-group listers exactly as NewClient does.
+func VerifNewController(k8sClient kubernetes.Interface, pods v1lister.PodLister, nodes v1lister.NodeLister, cloud cloudprovider.CloudProvider, builder cloudprovider.Builder, groups []NodeGroupOptions, dry bool) *Controller {
+	listers := make(map[string]*NodeGroupLister)
+	for _, ng := range groups {
+		if ng.Name == DefaultNodeGroup {
+			listers[ng.Name] = NewDefaultNodeGroupLister(pods, nodes, ng)
+		} else {
+			listers[ng.Name] = NewNodeGroupLister(pods, nodes, ng)
+		}
+	}
+	client := &Client{k8sClient, listers, pods, nodes}
+	opts := Opts{K8SClient: k8sClient, NodeGroups: groups, CloudProviderBuilder: builder, ScanInterval: time.Minute, DryMode: dry}
+	return &Controller{Client: client, Opts: opts, cloudProvider: cloud, nodeGroups: BuildNodeGroupsState(nodeGroupsStateOpts{nodeGroups: groups, client: *client})}
+}
+
+// VerifShiftClock moves every instant remembered by the controller d into the past.
+func (c *Controller) VerifShiftClock(d time.Duration) {
+	for _, s := range c.nodeGroups {
+		if !s.scaleUpLock.lockTime.IsZero() {
+			s.scaleUpLock.lockTime = s.scaleUpLock.lockTime.Add(-d)
+		}
+		if !s.lastScaleOut.IsZero() {
+			s.lastScaleOut = s.lastScaleOut.Add(-d)
+		}
+	}
+}
+
+// VerifGroupState is a projection of the per-group controller memory.
+type VerifGroupState struct {
+	IsLocked     bool
+	LockSet      bool // lockTime is not the zero time
+	LockAge      time.Duration
+	Requested    int
+	ScaleDelta   int
+	LastOutSet   bool
+	LastOutAge   time.Duration
+	CPUCapMilli  int64
+	MemCapBytes  int64
+	TaintTracker []string
+	ForceTracker []string
+	MinNodes     int
+	MaxNodes     int
+}
+
+// VerifState reads the controller memory of one node group.
+func (c *Controller) VerifState(name string) VerifGroupState {
+	s := c.nodeGroups[name]
+	return VerifGroupState{
+		IsLocked:     s.scaleUpLock.isLocked,
+		LockSet:      !s.scaleUpLock.lockTime.IsZero(),
+		LockAge:      time.Since(s.scaleUpLock.lockTime),
+		Requested:    s.scaleUpLock.requestedNodes,
+		ScaleDelta:   s.scaleDelta,
+		LastOutSet:   !s.lastScaleOut.IsZero(),
+		LastOutAge:   time.Since(s.lastScaleOut),
+		CPUCapMilli:  s.cpuCapacity.MilliValue(),
+		MemCapBytes:  s.memCapacity.Value(),
+		TaintTracker: append([]string(nil), s.taintTracker...),
+		ForceTracker: append([]string(nil), s.forceTaintTracker...),
+		MinNodes:     s.Opts.MinNodes,
+		MaxNodes:     s.Opts.MaxNodes,
+	}
+}
+
+// VerifSetState overwrites the controller memory of one node group (ages are relative to now).
+func (c *Controller) VerifSetState(name string, st VerifGroupState) {
+	s := c.nodeGroups[name]
+	s.scaleUpLock.isLocked = st.IsLocked
+	s.scaleUpLock.requestedNodes = st.Requested
+	if st.LockSet {
+		s.scaleUpLock.lockTime = time.Now().Add(-st.LockAge)
+	} else {
+		s.scaleUpLock.lockTime = time.Time{}
+	}
+	s.scaleDelta = st.ScaleDelta
+	if st.LastOutSet {
+		s.lastScaleOut = time.Now().Add(-st.LastOutAge)
+	} else {
+		s.lastScaleOut = time.Time{}
+	}
+	s.cpuCapacity = *resource.NewMilliQuantity(st.CPUCapMilli, resource.DecimalSI)
+	s.memCapacity = *resource.NewQuantity(st.MemCapBytes, resource.BinarySI)
+	s.taintTracker = append([]string(nil), st.TaintTracker...)
+	s.forceTaintTracker = append([]string(nil), st.ForceTracker...)
+}
+
+// VerifCalcPercentUsage exposes calcPercentUsage.
+func VerifCalcPercentUsage(cpuRequest, memRequest, cpuCapacity, memCapacity resource.Quantity, n int64) (float64, float64, error) {
+	return calcPercentUsage(cpuRequest, memRequest, cpuCapacity, memCapacity, n)
+}
+
+// VerifCalcScaleUpDelta exposes calcScaleUpDelta with the threshold and cached node size it reads from the group state.
+func VerifCalcScaleUpDelta(nodes []*v1.Node, cpuPercent, memPercent float64, cpuReq, memReq resource.Quantity, thr int, cpuCap, memCap resource.Quantity) (int, error) {
+	return calcScaleUpDelta(nodes, cpuPercent, memPercent, cpuReq, memReq, &NodeGroupState{Opts: NodeGroupOptions{ScaleUpThresholdPercent: thr}, cpuCapacity: cpuCap, memCapacity: memCap})
+}
